@@ -147,7 +147,9 @@ class ComponentCatalog:
                 else:
                     isliver.node_id = str(uuid.uuid4())
                 if interface_labels is not None:
-                    isliver.set_labels(interface_labels[id_index])
+                    # the sliver gets labels of its own: local_name is written into them below and the
+                    # caller may have passed the same object for several ports
+                    isliver.set_labels(Labels.update(interface_labels[id_index]))
                 # set local_name to port name from catalog, however for sr-iov cards it needs to
                 # be a list of identical names. We use bdf labels as indicator of how many devices
                 # are behind it.
